@@ -4,7 +4,7 @@
    99bac0d, io.ReadFull in parseString dace4fa).  The pre-fix variant [ParseMPCLC_prefix] and its
    refutation witnesses (findings F9, F10, fixed) stay in IO/MarshalProof.v as a regression record. *)
 From Coq Require Import NArith ZArith List Bool.
-From Mpc Require Import Gen.Consts Circuit.Circuit IO.Marshal IO.MarshalProof IO.MarshalRoundTrip IO.RunC14.
+From Mpc Require Import Gen.Consts Circuit.Circuit IO.Marshal IO.MarshalProof IO.MarshalRoundTrip IO.ParseFile IO.ParseFileProof IO.RunC14.
 Import ListNotations.
 From Mpc Require Gen.State Base.StateExpected Base.StateCheck Base.StatePkgs.
 
@@ -111,6 +111,118 @@ Theorem C14_parse_rejects_input_overwrite :
     forall g, In g (c_gates c) -> (io_size (c_inputs c) <= Z.of_N (g_out g))%Z.
 Proof. exact parse_rejects_input_overwrite. Qed.
 Print Assumptions C14_parse_rejects_input_overwrite.
+
+(* ---- front doors: circuit.IsFilename, circuit.Parse(file) (IO/ParseFile.v) ---- *)
+
+(* FULL (which parser for which name): for EVERY file name (any byte string) the parser that
+   circuit.Parse selects is ParseMPCLC exactly when the name ends in ".mpclc", ParseBristol exactly
+   when it ends in ".circ" or ".bristol", and none ("unsupported circuit format") exactly when
+   IsFilename is false. *)
+Theorem C14_select_parser_spec :
+  forall file,
+    (select_parser file = SelMPCLC <-> has_suffix file s_dot_mpclc = true) /\
+    (select_parser file = SelBristol <-> has_suffix file s_dot_circ = true \/ has_suffix file s_dot_bristol = true) /\
+    (select_parser file = SelNone <-> IsFilename file = false).
+Proof. exact select_parser_spec. Qed.
+Print Assumptions C14_select_parser_spec.
+
+(* FULL: for every file name at most one of the three suffixes matches, so the order of the tests
+   in Parse / IsFilename is immaterial and no name is claimed by both formats. *)
+Theorem C14_suffixes_exclusive :
+  forall s,
+    (has_suffix s s_dot_mpclc = true -> has_suffix s s_dot_circ = false /\ has_suffix s s_dot_bristol = false) /\
+    (has_suffix s s_dot_bristol = true -> has_suffix s s_dot_circ = false /\ has_suffix s s_dot_mpclc = false) /\
+    (has_suffix s s_dot_circ = true -> has_suffix s s_dot_bristol = false /\ has_suffix s s_dot_mpclc = false).
+Proof. exact suffixes_exclusive. Qed.
+Print Assumptions C14_suffixes_exclusive.
+
+(* FULL: for every base name (empty, or itself ending in another suffix, e.g. "x.circ" + ".mpclc")
+   and every file content, Parse(base + suffix) IS the parser of that suffix. *)
+Theorem C14_parse_file_dispatch :
+  forall base bs,
+    ParseFile (base ++ s_dot_mpclc) (Some bs) = ParseMPCLC bs /\
+    ParseFile (base ++ s_dot_bristol) (Some bs) = ParseBristol bs /\
+    ParseFile (base ++ s_dot_circ) (Some bs) = ParseBristol bs.
+Proof. exact parse_file_dispatch. Qed.
+Print Assumptions C14_parse_file_dispatch.
+
+(* FULL: IsFilename and Parse agree: a name IsFilename rejects is never parsed, whatever the file
+   holds (and whether it exists). *)
+Theorem C14_parse_file_unsupported :
+  forall file content, IsFilename file = false -> ParseFile file content = Err.
+Proof. exact parse_file_unsupported. Qed.
+Print Assumptions C14_parse_file_unsupported.
+
+(* FULL (graceful, front door): for every file name, every file content and a missing file,
+   circuit.Parse returns a circuit or an error. *)
+Theorem C14_parse_file_total : forall file content, ok_or_err (ParseFile file content).
+Proof. exact parse_file_total. Qed.
+Print Assumptions C14_parse_file_total.
+
+(* FULL (soundness, front door): every circuit circuit.Parse returns, for any name and content,
+   satisfies [parse_sound]. *)
+Theorem C14_parse_file_sound : forall file content c, ParseFile file content = Ok c -> parse_sound c.
+Proof. exact parse_file_sound. Qed.
+Print Assumptions C14_parse_file_sound.
+
+(* FULL (round trip through both front doors): for every format string f, circuit c and base
+   name: what MarshalFormat(f) writes, stored under base + "." + f, is read back by circuit.Parse
+   as the normal form of c (the format names of the writer ARE the suffixes of the reader);
+   Bristol text is also read back under base + ".circ". *)
+Theorem C14_front_door_roundtrip :
+  forall base f c bs, MarshalFormat f c = Some bs ->
+    (f = s_mpclc /\ bs = Marshal c /\
+     (wf_marshal c -> ParseFile (base ++ [46%N] ++ f) (Some bs) = Ok (norm c))) \/
+    (f = s_bristol /\ bs = MarshalBristol c /\
+     (wf_bristol c -> ParseFile (base ++ [46%N] ++ f) (Some bs) = Ok (bristol_norm c) /\
+                      ParseFile (base ++ s_dot_circ) (Some bs) = Ok (bristol_norm c))).
+Proof. exact front_door_roundtrip. Qed.
+Print Assumptions C14_front_door_roundtrip.
+
+(* FULL (a file of one format under the other format's name): for EVERY circuit c (no hypothesis
+   at all) and every base name, the bytes Marshal writes are REJECTED by ParseBristol and hence by
+   circuit.Parse under a ".circ" / ".bristol" name — never misread as some other circuit; more
+   generally ParseBristol rejects every byte string that starts with the first MAGIC byte 'c'
+   (every truncation / extension / mutation of an MPCLC file that keeps its first byte). *)
+Theorem C14_mpclc_file_under_bristol_name :
+  forall base c,
+    ParseBristol (Marshal c) = Err /\
+    ParseFile (base ++ s_dot_circ) (Some (Marshal c)) = Err /\
+    ParseFile (base ++ s_dot_bristol) (Some (Marshal c)) = Err.
+Proof. exact mpclc_file_cross_rejected. Qed.
+Print Assumptions C14_mpclc_file_under_bristol_name.
+
+Theorem C14_bristol_rejects_magic_byte : forall t, ParseBristol (c99 :: t) = Err.
+Proof. exact bristol_rejects_c99. Qed.
+Print Assumptions C14_bristol_rejects_magic_byte.
+
+(* FULL (Circuit.Stats after a parse): for every file name and content, if circuit.Parse returns a
+   circuit with Stats st then st is the histogram of its gate kinds (slots Count/NumLevels/MaxWidth
+   zero), Stats.Count() = the header's NumGates, NumXOR() + NumNonXOR() = Count(), and Cost() is
+   the sum of the per-gate costs (XOR/XNOR 0, AND/INV 2, OR 3). *)
+Theorem C14_parse_file_stats :
+  forall file content c st, ParseFileStats file content = Ok (c, st) ->
+    parse_sound c /\ st = parse_stats (c_gates c) /\ Z.of_N (stats_count st) = c_numgates c /\
+    (stats_numxor st + stats_numnonxor st = stats_count st)%N /\
+    stats_cost st = fold_right (fun g a => (gate_cost (g_op g) + a)%N) 0%N (c_gates c).
+Proof. exact parse_file_stats. Qed.
+Print Assumptions C14_parse_file_stats.
+
+(* FULL: for every gate list (any length) the parsers' `stats[op]++` loop yields exactly the
+   per-kind counts followed by three zero slots. *)
+Theorem C14_parse_stats_spec :
+  forall gs, parse_stats gs =
+    [count_op XOR gs; count_op XNOR gs; count_op AND gs; count_op OR gs; count_op INV gs; 0%N; 0%N; 0%N].
+Proof. exact parse_stats_spec. Qed.
+Print Assumptions C14_parse_stats_spec.
+
+(* FULL: for every circuit, the normal forms both round trips return carry the Stats of the
+   circuit that was written. *)
+Theorem C14_stats_roundtrip :
+  forall c, parse_stats (c_gates (norm c)) = parse_stats (c_gates c) /\
+            parse_stats (c_gates (bristol_norm c)) = parse_stats (c_gates c).
+Proof. exact stats_roundtrip. Qed.
+Print Assumptions C14_stats_roundtrip.
 
 (* STATE INVENTORY (finite obligation on the model regenerated from the source, checked by
    computation).  The struct fields and package-level variables of the Go packages this
